@@ -28,6 +28,8 @@ out,clean,broken,tests,res=sys.argv[1:6]
 p=out+"/meta.json"
 try: m=json.load(open(p))
 except Exception: m={}
+if "confirmed" in m:
+    m.setdefault("earlier_runs", []).append(m["confirmed"])
 m["confirmed"]={"demo_exit_on_head":int(clean),"demo_exit_with_patch":int(broken),"pinned_tests_with_patch":tests,"check_verdicts":res}
 json.dump(m,open(p,"w"),indent=1)
 PY
